@@ -1,84 +1,47 @@
 /-
-Cluster `obs`: failure atomicity of a registration whose walk raises before any
-sibling subtree has completed (`firstFail`): the undo logs restore every count.
+Cluster `obs`: failure atomicity.  Everything a walk does is recorded in the one
+undo log of the outermost call (`walk_did`), and the owner rolls it back
+(`finish_atomic`): a registration OR removal that raises — anywhere in the walk,
+after any number of completed sibling subtrees or graphs — leaves every count as
+it was.
 -/
 import TraitsVerif.Lemmas.ObsRemove
 namespace TraitsVerif.Model.Obs
 open TraitsVerif
 
-def AtomicSpec (h : Heap) (k : HKey) (g : Graph) : Prop :=
-  ∀ (extra : Bool) (x : W) (H : Hooks), WF H → firstFail h g x = true →
-    (addRemove h k false extra g x H).err ≠ none ∧
-    (∀ o q, cnt (addRemove h k false extra g x H).H o q = cnt H o q) ∧
-    WF (addRemove h k false extra g x H).H
+theorem addRemove_atomic (h : Heap) (k : HKey) (g : Graph) (rm extra : Bool) (x : W) (H : Hooks) (hw : WF H)
+    (he : (addRemove h k rm extra g x H).err ≠ none) :
+    (∀ o q, cnt (addRemove h k rm extra g x H).H o q = cnt H o q) ∧ WF (addRemove h k rm extra g x H).H := by
+  unfold addRemove at he ⊢
+  rw [finish_err] at he
+  exact finish_atomic rm H _ (walk_did h k g rm extra x H [] hw) he
 
-theorem addRemove_atomic (h : Heap) (k : HKey) : ∀ g : Graph, AtomicSpec h k g := by
-  apply Graph.ind
-  intro ob cs ih extra x H hw hff
-  rw [addRemove_add_unfold]
-  simp only [firstFail, Bool.or_eq_true, Bool.not_eq_true'] at hff
-  cases hobs : observables h ob x with
-  | error e =>
-    -- the node's own `iter_observables` raises: nothing was added
-    by_cases hn : ob.notify = true
-    · simp [notifStep, hn, hobs, undo]; exact hw
-    · simp [notifStep, maintStep, hn, hobs, undo]; exact hw
-  | ok os =>
-    have hcsF : firstFailCs h ob x cs = true := by
-      cases hff with
-      | inl h1 => simp [hobs, isOk] at h1
-      | inr h2 => exact h2
-    -- own steps succeed
-    obtain ⟨H1, d1, hs1, hc1, hw1, hd1⟩ : ∃ H1 d1, notifStep h k false ob x H [] = (H1, d1, none) ∧
-        (∀ o q, cnt H1 o q = cnt H o q + cntItems d1 o q) ∧ WF H1 ∧ True := by
-      unfold notifStep
-      by_cases hn : ob.notify = true
-      · obtain ⟨H1, ha, hc, hw'⟩ := applyOwn_add (userItems k os) H []
-        refine ⟨H1, _, by simp [hn, hobs]; exact ha, ?_, hw' hw, trivial⟩
-        intro o q; rw [hc, cntItems_append, cntItems_reverse, cntItems_nil]; omega
-      · exact ⟨H, [], by simp [hn], by simp [cntItems_nil], hw, trivial⟩
-    simp only [hs1]
-    obtain ⟨H2, ha2, hc2, hw2⟩ := applyOwn_add (maintItems ob cs k os) H1 d1
-    have hs2 : maintStep h k false ob cs x H1 d1 = (H2, (maintItems ob cs k os).reverse ++ d1, none) := by
-      simp [maintStep, hobs]; exact ha2
-    simp only [hs2]
-    have hw2' := hw2 hw1
-    -- everything this node added is in its undo log
-    have hdone : ∀ o q, cnt H2 o q = cnt H o q + cntItems ((maintItems ob cs k os).reverse ++ d1) o q := by
-      intro o q
-      rw [hc2, hc1, cntItems_append, cntItems_reverse]; omega
-    -- the children step raises at its first (child graph, object) pair, restoring the counts
-    obtain ⟨e3, he3, hc3, hw3⟩ : ∃ e, (addRemoveCs h k false ob x cs H2).err = some e ∧
-        (∀ o q, cnt (addRemoveCs h k false ob x cs H2).H o q = cnt H2 o q) ∧
-        WF (addRemoveCs h k false ob x cs H2).H := by
-      cases cs with
-      | nil => simp [firstFailCs] at hcsF
-      | cons c cs' =>
-        simp only [firstFailCs] at hcsF
-        simp only [addRemoveCs]
-        cases hobj : objects h ob x with
-        | error e => exact ⟨e, rfl, fun _ _ => rfl, hw2'⟩
-        | ok ys =>
-          cases ys with
-          | nil => simp [hobj] at hcsF
-          | cons y ys' =>
-            simp only [hobj] at hcsF
-            obtain ⟨a1, a2, a3⟩ := ih c (List.mem_cons_self ..) true y H2 hw2' hcsF
-            cases he : (addRemove h k false true c y H2).err with
-            | none => exact absurd he a1
-            | some e =>
-              simp only [foldRes, he]
-              exact ⟨e, rfl, a2, a3⟩
-    simp only [he3]
-    have hle : ∀ o q, cntItems ((maintItems ob cs k os).reverse ++ d1) o q ≤
-        cnt (addRemoveCs h k false ob x cs H2).H o q := by
-      intro o q
-      rw [hc3, hdone]; omega
-    obtain ⟨u1, u2⟩ := undo_add _ _ hw3 hle
-    refine ⟨by simp, ?_, u2⟩
-    intro o q
-    have := u1 o q
-    rw [hc3, hdone] at this
-    omega
+theorem applyObservers_atomic (h : Heap) (k : HKey) (rm : Bool) (x : W) (gs : List Graph) (H : Hooks) (hw : WF H)
+    (he : (applyObservers h k rm x gs H).err ≠ none) :
+    (∀ o q, cnt (applyObservers h k rm x gs H).H o q = cnt H o q) ∧ WF (applyObservers h k rm x gs H).H := by
+  unfold applyObservers at he ⊢
+  rw [finish_err] at he
+  exact finish_atomic rm H _ (applyObserversW_did h k rm x gs H [] hw) he
+
+theorem observe_atomic (h : Heap) (handler : Nat) (root : Id) (rm : Bool) (e : Expr) (H : Hooks) (hw : WF H)
+    (he : (observe h handler root rm e H).err ≠ none) :
+    (∀ o q, cnt (observe h handler root rm e H).H o q = cnt H o q) ∧ WF (observe h handler root rm e H).H := by
+  unfold observe at he ⊢
+  cases hc : e.compile with
+  | error ex => simp only [hc]; exact ⟨fun _ _ => rfl, hw⟩
+  | ok gs =>
+    simp only [hc] at he ⊢
+    exact applyObservers_atomic h _ rm _ gs H hw he
+
+/-- Well-formedness survives every call, raising or not. -/
+theorem addRemove_WF (h : Heap) (k : HKey) (g : Graph) (rm extra : Bool) (x : W) (H : Hooks) (hw : WF H) :
+    WF (addRemove h k rm extra g x H).H := by
+  cases he : (addRemove h k rm extra g x H).err with
+  | some e => exact (addRemove_atomic h k g rm extra x H hw (by simp [he])).2
+  | none =>
+    unfold addRemove at he ⊢
+    rw [finish_err] at he
+    rw [finish_ok _ _ he]
+    exact (walk_did h k g rm extra x H [] hw).wf
 
 end TraitsVerif.Model.Obs
